@@ -2,7 +2,8 @@
 
 Canonical-state BFS over construction / evaluation histories, per family: three objects A = F(k1),
 B = F(k2), C = F(k1) and two points (one on a branch boundary where the family has branches);
-operations: construct X, evaluate X at p with a fresh or a reused value holder.  State = digest of all
+operations: construct X, evaluate X at p with a fresh or a reused value holder, through a new Point object
+or through one Point object that the caller moves in place.  State = digest of all
 constructed instances + the family's module-level tables.  BFS to closure with merging and,
 independently, all operation sequences up to a length without merging.  Oracle per evaluation: the
 returned object IS the supplied holder, its value equals the reference value computed in a fresh
@@ -27,13 +28,13 @@ LEVEL = "model_checking"
 
 def fam_specs():
     S = {}
-    S["Hill"] = dict(cls=("iOpt.problems.hill", "Hill"), keys=[(3,), (500,)], points=[[0.37], [0.0]],
+    S["Hill"] = dict(cls=("iOpt.problems.hill", "Hill"), keys=[(3,), (4,)], points=[[0.37], [0.0]],
                      mods=["iOpt.problems.Hill.hill_generation"])
-    S["Shekel"] = dict(cls=("iOpt.problems.shekel", "Shekel"), keys=[(7,), (900,)], points=[[4.2], [10.0]],
+    S["Shekel"] = dict(cls=("iOpt.problems.shekel", "Shekel"), keys=[(7,), (8,)], points=[[4.2], [10.0]],
                        mods=["iOpt.problems.Shekel.shekel_generation"])
     S["Shekel4"] = dict(cls=("iOpt.problems.shekel4", "Shekel4"), keys=[(1,), (3,)],
                         points=[[4.0, 4.0, 4.0, 4.0], [1.5, 7.25, 3.0, 9.0]], mods=["iOpt.problems.Shekel4.shekel4_generation"])
-    S["Grishagin"] = dict(cls=("iOpt.problems.grishagin", "Grishagin"), keys=[(1,), (11,)],
+    S["Grishagin"] = dict(cls=("iOpt.problems.grishagin", "Grishagin"), keys=[(1,), (2,)],
                           points=[[0.066182, 0.582587], [1.0, 0.0]],
                           mods=["iOpt.problems.grishagin_function.grishagin_generation"])
     S["Rastrigin"] = dict(cls=("iOpt.problems.rastrigin", "Rastrigin"), keys=[(2,), (3,)],
@@ -43,7 +44,7 @@ def fam_specs():
     S["StronginC3"] = dict(cls=("iOpt.problems.stronginC3", "StronginC3"), keys=[(), ()],
                            points=[[0.941176, 0.941176], [2.0, 1.5]], mods=[],
                            fids=[("O", 0), ("C", 0), ("C", 1), ("C", 2)])
-    S["GKLS2"] = dict(cls=("iOpt.problems.GKLS", "GKLS"), keys=[(2, 1), (2, 37)], points="gkls", mods=[])
+    S["GKLS2"] = dict(cls=("iOpt.problems.GKLS", "GKLS"), keys=[(2, 1), (2, 2)], points="gkls", mods=[])
     S["GKLS4"] = dict(cls=("iOpt.problems.GKLS", "GKLS"), keys=[(4, 5), (4, 6)], points="gkls", mods=[])
     return S
 
@@ -56,14 +57,15 @@ def build(spec, key):
 def points_of(spec, fam):
     if spec["points"] != "gkls":
         return [np.array(p, dtype=np.double) for p in spec["points"]]
-    # a ball centre (branch: 'coincides with the minimiser'), a point just inside a ball boundary, a paraboloid point
+    # a ball centre (branch: 'coincides with the minimiser'), a point inside the same ball, a point just inside another
+    # ball's boundary, a paraboloid point
     g = build(spec, spec["keys"][0])
     m = g.function.GKLS_minima
     M, rho = np.array(m.local_min), np.array(m.rho)
     n = M.shape[1]
     e = np.zeros(n)
     e[0] = 1.0
-    return [M[1].copy(), M[2] + e * rho[2] * (1 - 1e-9), np.full(n, 0.3)]
+    return [M[1].copy(), M[1] + e * rho[1] * 0.5, M[2] + e * rho[2] * (1 - 1e-9), np.full(n, 0.3)]
 
 
 def holder(fid):
@@ -80,7 +82,8 @@ def ops_of(spec, npts):
         for j in range(npts):
             for fid in fids:
                 for reuse in (False, True):
-                    ops.append(("eval", x, j, fid, reuse))
+                    for pmode in (0, 1):
+                        ops.append(("eval", x, j, fid, reuse, pmode))
     return ops
 
 
@@ -94,10 +97,10 @@ def reference_values(fam):
     pts = points_of(spec, fam)
     out = {}
     for ki, key in enumerate(spec["keys"]):
-        obj = build(spec, key)
-        n = dim_of(obj)
         for j, p in enumerate(pts):
             for fid in spec.get("fids", [None]):
+                obj = build(spec, key)       # one evaluation per object: the reference has no history at all
+                n = dim_of(obj)
                 v = obj.Calculate(Point(np.array(p[:n], dtype=np.double), []), holder(fid)).value
                 out[f"{ki}|{j}|{fid}"] = float(v).hex()
     return out
@@ -139,19 +142,30 @@ class World:
             if op[0] == "new":
                 objs[op[1]] = build(self.spec, self.spec["keys"][keyidx[op[1]]])
                 continue
-            _, x, j, fid, reuse = op
+            _, x, j, fid, reuse, pmode = op
             if x not in objs:
                 return None, None     # not enabled
             obj = objs[x]
             n = dim_of(obj)
-            arr = np.array(self.pts[j][:n], dtype=np.double)
+            if pmode == 0:
+                # a new Point object on a new array
+                arr = np.array(self.pts[j][:n], dtype=np.double)
+                pt = Point(arr, [])
+            else:
+                # the caller keeps ONE Point object per dimension and moves it in place (what a solver loop may do)
+                pt = holders.get(("point", n))
+                if pt is None:
+                    pt = holders[("point", n)] = Point(np.array(self.pts[j][:n], dtype=np.double), [])
+                else:
+                    pt.floatVariables[:] = self.pts[j][:n]
+                arr = pt.floatVariables
             before = (str(arr.dtype), arr.tobytes())
             hk = (x, str(fid))
             h = holders.get(hk) if reuse else None
             if h is None:
                 h = holder(fid)
                 holders[hk] = h
-            ret = obj.Calculate(Point(arr, []), h)
+            ret = obj.Calculate(pt, h)
             if step < check_from:
                 continue
             ctx = f"{self.fam}: history {[self.show(i) for i in seq[:step + 1]]}"
@@ -171,7 +185,8 @@ class World:
         op = self.ops[k]
         if op[0] == "new":
             return f"{op[1]}=new"
-        return f"{op[1]}.Calculate(p{op[2]}{'' if op[3] is None else ',' + str(op[3])}{',reuse' if op[4] else ''})"
+        return (f"{op[1]}.Calculate(p{op[2]}{'' if op[3] is None else ',' + str(op[3])}{',reused holder' if op[4] else ''}"
+                f"{',same Point object moved in place' if op[5] else ''})")
 
     def state(self, objs):
         tabs = []
@@ -288,7 +303,7 @@ def run(ctx):
         W = World(f, refs[f])
         evals = [k for k, op in enumerate(W.ops) if op[0] == "eval"]
         for l in range(1, L + 1):
-            if len(evals) ** l > 60000:
+            if len(evals) ** l > 150000:
                 continue
             for first in evals:
                 utasks.append(dict(fam=f, refs=refs[f], L=l, first=first))
